@@ -481,7 +481,7 @@ def _obs_segment(g):
     return [_flat_header(g.header), type(g).__name__]
 
 
-def _impl_answer(elf, q):
+def _impl_answer(elf, q, fresh):
     op = q[0]
     def wrap(f):
         try:
@@ -511,6 +511,9 @@ def _impl_answer(elf, q):
     if op == 'by_name':
         name = q[1].decode('utf-8')
         def f():
+            # a fresh object per lookup: a failed _make_section_name_map leaves a partial map behind
+            # (history dependence on malformed files is C10's subject, not C01's)
+            elf = fresh()
             i = elf.get_section_index(name)
             h = elf.has_section(name)
             s = elf.get_section_by_name(name)
@@ -589,7 +592,7 @@ def evaluate(ctx, cases):
         spec = _strip_pad(ra[2] + rb[2])
         try:
             elf = ELFFile(io.BytesIO(img))
-            impl = [_impl_answer(elf, q) for q in queries]
+            impl = [_impl_answer(elf, q, lambda: ELFFile(io.BytesIO(img))) for q in queries]
         except Exception as e:          # noqa: constructor failure is the answer to every query
             impl = [['err', type(e).__name__] for _ in queries]
         in_domain = wf and kind != 'malformed'
